@@ -553,7 +553,7 @@ func stlReadOut(ignore bool, doc []byte) (s *astisub.Subtitles, out string) {
 			s, out = nil, "panic"
 		}
 	}()
-	s, err := astisub.ReadFromSTL(bytes.NewReader(doc), astisub.STLOptions{IgnoreTimecodeStartOfProgramme: ignore})
+	s, err := astisub.ReadFromSTL(deliveryFor(doc), astisub.STLOptions{IgnoreTimecodeStartOfProgramme: ignore})
 	if err != nil {
 		return nil, "err"
 	}
